@@ -1,6 +1,12 @@
 """Sidecar contracts on the real gemseo functions, one module per property (DESIGN.md §4)."""
 
 PROPS = {
+    "C04": {
+        "level_text": "Proof that constraint satisfaction, point feasibility and the listing of feasible recorded points follow the property's definitions.",
+        "level_note": "see evidence",
+        "design_ref": "DESIGN.md §4 C04",
+        "modules": ["contracts.c04_optimum"],
+    },
     "C16": {
         "level_text": "Proof, for all dimensions, points, steps and component subsets, that forward finite differences build the perturbation "
                       "matrix x + h e_k column by column and return the exact difference quotients of the (uninterpreted) function; "
@@ -50,19 +56,38 @@ PROPS = {
         "not_covered": ["BaseDriverLibrary.execute", "stop_criteria.py", "BaseDOELibrary._run", "use_database=False"],
     },
     "C05": {
-        "level_text": "Proof (function by function, all inputs, unbounded) that SimpleCache operations implement a one-entry map from input content to "
-                      "(outputs, Jacobian) and never keep a reference to an array the caller passed in; relative to the assumed contract of "
-                      "compare_dict_of_arrays. Only the cache layer is proved; see level_note.",
-        "level_note": "Trusted: pyvc VC generator and its dict/list models, z3/cvc5, arrays as opaque contents in a symbolic heap, "
-                      "compare_dict_of_arrays contract assumed. Not covered: HDF5Cache, linearize protocol, locking.",
+        "level_text": "Proof (function by function, all inputs, all histories by invariant preservation) that (1) SimpleCache implements a one-entry map from "
+                      "input content to (outputs, Jacobian) and never keeps a reference to an array the caller passed in; (2) BaseFullCache "
+                      "(cache_outputs, cache_jacobian, __getitem__ exact and with tolerance, last_entry, clear, __len__ and their helpers) refines a finite "
+                      "map from input content to (outputs?, Jacobian?) under a representation invariant of the hash buckets, with hash_data an uninterpreted "
+                      "(colliding) function of the content, relative to the specification of the four abstract storage methods; (3) MemoryFullCache's "
+                      "storage methods satisfy that specification (behavioural subtyping) - except the freshness clause, see known defects; (4) "
+                      "BaseDiscipline.execute with the default SimpleCache runs the body iff the lookup returned no outputs, returns the inputs merged "
+                      "with the cached outputs on a hit and stores (pristine prepared inputs, produced outputs) on a miss.",
+        "level_note": "Trusted: pyvc VC generator and its dict/list/set models, z3/cvc5, arrays as opaque contents in a symbolic heap (allocation only, no "
+                      "in-place modification inside the verified functions), compare_dict_of_arrays / hash_data / flatten-nest of Jacobians assumed, "
+                      "ghost code in __ensure_input_data_exists (ghost variables only), DictProxy stores pickled copies, IO/grammar/_run environment of "
+                      "execute assumed. Not covered: HDF5Cache, linearize protocol, locking, execute with a full cache (data converters).",
         "design_ref": "DESIGN.md §4 C05",
-        "modules": ["contracts.c05_caches", "contracts.c05_full_cache"],
+        "modules": ["contracts.c05_caches", "contracts.c05_full_cache", "contracts.c05_discipline"],
         "runtime": "contracts.rt_c05",
         "assumptions": [
-            "arrays are opaque values compared by content; numpy's `!=`/norm inside compare_dict_of_arrays are not modelled",
-            "hash_data is an arbitrary (possibly colliding) function of the input data",
+            "arrays are opaque values compared by content; numpy's `!=`/norm inside compare_dict_of_arrays are not modelled: tolerance 0 = equal contents, "
+            "tolerance t>0 = an uninterpreted predicate of the two contents and t",
+            "hash_data is an arbitrary (possibly colliding) deterministic function of the content of the input data",
+            "Jacobian data are dicts of arrays keyed by (output, input) pairs; flatten_nested_bilevel_dict / nest_flat_bilevel_dict are inverse key renamings sharing the arrays "
+            "(rectangular Jacobians, separator not occurring in names)",
+            "the abstract storage methods of BaseFullCache (_initialize_entry/_has_group/_read_data/_write_data) are specifications over a model field; verified for MemoryFullCache only",
+            "a multiprocessing manager DictProxy stores a pickled deep copy of an assigned value (MemoryFullCache(is_memory_shared=True))",
+            "multiprocessing.Value cells and the index arrays of _hashes_to_indices are modelled as integer cells / lists of integers; lock decorators are identity",
+            "BaseDiscipline.execute: SimpleCache policy, no data processor, grammar validation has no effect, prepare_input_data is a function of the data passed in, "
+            "_run (through _execute_monitored) allocates but does not modify existing arrays in place",
         ],
-        "not_covered": ["HDF5Cache (h5py)", "multi-process locking", "Discipline.linearize Jacobian-cache protocol"],
+        "not_covered": ["HDF5Cache (h5py), reopening a cache file", "multi-process locking", "Discipline.linearize Jacobian-cache protocol",
+                        "BaseDiscipline.execute with MemoryFullCache/HDF5Cache (data converter branches)", "in-place modification of inputs by _run",
+                        "BaseCache.input_names/output_names/names_to_sizes (cached names), get_all_entries, update, __add__, to_dataset, to_ggobi",
+                        "arrays returned by a lookup are shared with the cache (SimpleCache, MemoryFullCache not shared): modifying them in place changes the cached entry",
+                        "compare_dict_of_arrays itself (assumed contract)"],
     },
     "C13": {
         "level_text": "Proof, for an arbitrary number of tasks and workers, an arbitrary completion order (any permutation of the results in the out-queue) and an "
@@ -87,30 +112,109 @@ PROPS = {
                         "shared caches and locks under true concurrency", "pickling of workers and data (C20)"],
     },
     "C08": {
-        "level_text": "TBD",
-        "level_note": "see evidence",
+        "level_text": "Proof (all inputs, unbounded number of disciplines) that DependencyGraph builds the dependency graph of the name sets, that the "
+                      "leaf-peeling loop of get_execution_sequence terminates and returns a valid schedule (every discipline exactly once; groups = classes of "
+                      "mutual dependency, listed in the caller's order; a group strictly after every group producing one of its inputs), that the coupling sets "
+                      "computed by CouplingStructure are the set identities implied by the name sets, and that MDOChain._execute is the exact left fold of "
+                      "update(d.execute(data)) in list order. Relative to assumed contracts of three networkx functions and one cited lemma; see level_note.",
+        "level_note": "Trusted: pyvc VC generator and its container models, z3/cvc5, the graph plugin pyvc/plug_graph.py (model of networkx.DiGraph as ordered node set + "
+                      "edge relation + ghost removal history). Assumed: contracts of networkx.strongly_connected_components / condensation (incl. acyclicity as a rank "
+                      "function), lemma 'a non-empty finite DAG has a sink'. Not proved: order-independence of the chain result, strong/weak coupling sets (see not_covered).",
+        "design_ref": "DESIGN.md §4 C08",
         "modules": ["contracts.c08_dependency"],
-        "assumptions": [],
-        "not_covered": [],
+        "assumptions": [
+            "a discipline is an opaque value; its input/output grammars are the name sets in_names(d)/out_names(d), not modified by the functions under contract",
+            "networkx.strongly_connected_components(G) returns the partition of the nodes into classes of mutual reachability (reach = reflexive-transitive closure of the edge relation; only its closure axioms are used)",
+            "networkx.condensation(G, scc): nodes 0..m-1 in the order of scc, node attribute members, mapping, an edge a->b iff a!=b and some member edge crosses, result acyclic (a rank function exists); its preconditions (scc = duplicate-free partition of the nodes) are proved at the call site",
+            "DiGraph.nodes iterates in insertion order; add_nodes_from/add_edge/remove_nodes_from/out_degree/edges(data=...) as modelled in pyvc/plug_graph.py",
+            "cited lemma (assumed, instantiated once when the peeling loop is left): a non-empty finite DAG (edges strictly decrease a rank into the naturals) has a node without successor",
+            "Discipline.execute(data) returns a mapping that is a deterministic function of (discipline, content of data) and does not modify `data`",
+            "sorted() of names: permutation only (the alphabetical order of the returned name lists is not modelled)",
+        ],
+        "not_covered": [
+            "CouplingStructure.get_strongly_coupled_disciplines, _compute_weakly_coupled, _compute_strong_couplings, _compute_weak_couplings (triple loops over the sequence; not yet under contract)",
+            "lazy caching properties of CouplingStructure (strong_couplings, all_couplings, ...): get_output/input_couplings are verified reading the cached lists as they are",
+            "order-independence of MDOChain results for acyclic systems (lemma over the fold) and MDAChain._create_mdo_chain, MDOChain._initialize_grammars",
+            "numerical equality of an MDA chain with a monolithic solve when cycles exist (C06)",
+            "rendering functions of DependencyGraph, __get_leaves on a non-condensed graph",
+        ],
     },
     "C09": {
-        "level_text": "TBD",
-        "level_note": "see evidence",
+        "level_text": "Proof (set level only) that Discipline.add_differentiated_inputs/outputs only add names (monotonic, exact set), that _initialize_add_diff_io selects exactly the "
+                      "requested inputs/outputs of every discipline and the right source disciplines, that _apply_diff_ios adds to every "
+                      "discipline exactly its selected continuous names and removes nothing, and that each one-way traversal _bfs_one_way_diff_io covers every edge whose "
+                      "producer is reachable from a source (forward) / whose consumer reaches a source (reverse): the coupling names of the edge are differentiated outputs "
+                      "of its producer and differentiated inputs of its consumer. The end-to-end soundness of pruning (traverse_add_diff_io) is NOT yet proved; see not_covered.",
+        "level_note": "Trusted: as C08 (graph plugin), plus the ghost maps of differentiated names for opaque disciplines. Assumed: contract of networkx.edge_bfs/reverse_view. "
+                      "Numerical exactness of the chain rule is not addressed by these contracts.",
+        "design_ref": "DESIGN.md §4 C09",
         "modules": ["contracts.c09_chain_rule"],
-        "assumptions": [],
-        "not_covered": [],
+        "assumptions": [
+            "networkx.edge_bfs(G, source) enumerates exactly the edges whose tail is reachable from the source, each once; reverse_view(G) = same nodes, reversed edges with the same data",
+            "reach = reflexive-transitive closure of the edge relation (closure axioms only)",
+            "lset(list) is *defined* as the set of the elements of a list of names; list.extend / list(set) facts on lset added by the plugin are consequences of that definition",
+            "an opaque discipline reacts to add_differentiated_inputs/outputs as the contract verified on Discipline.add_differentiated_inputs/outputs states (ghost maps c09_diff_in/out)",
+            "grammar.data_converter.is_continuous(name) is an uninterpreted predicate of (discipline, grammar, name)",
+        ],
+        "not_covered": [
+            "_merge_diff_ios, _merge_diff_io_special, traverse_add_diff_io (the composition giving: every dependency path from a requested input to a requested output is covered) - not yet under contract",
+            "exactness/minimality of the selection (only coverage is proved for the traversal)",
+            "MDOChain._compute_diff_in_outs request cache, reverse_chain_rule/_compute_jacobian accumulation (numerical chain rule), copy_jacs, _init_jacobian, parallel/additive chains",
+        ],
     },
     "C15": {
-        "level_text": "Proof (function by function, all inputs, unbounded) on the real source of RequiredNames, Defaults, SimpleGrammar and the "
-                      "BaseGrammar template methods (instantiated with SimpleGrammar's primitives) that every edit preserves the representation "
-                      "invariant (required names and default keys are element names, parts bound to their grammar), changes the abstract view "
-                      "(names->types, required set, defaults) exactly as specified and nothing else, and that SimpleGrammar validation raises "
-                      "exactly when the data violates the current definition. JSON-schema/pydantic grammars are not covered; see level_note.",
-        "level_note": "see evidence (work in progress)",
+        "level_text": "Proof (function by function, all inputs, unbounded) on the real source of RequiredNames, Defaults, SimpleGrammar and of the BaseGrammar template "
+                      "methods (instantiated with SimpleGrammar's primitives) that every edit (update from names/types/data/another grammar with exclusions, restriction, "
+                      "renaming, deletion, namespacing, clearing, copying, construction, defaults assignment) preserves the representation invariant WFG (required names and "
+                      "default keys are element names, the two parts are bound to their own grammar, namespaced names are elements), changes the abstract view "
+                      "(names->types, required set, defaults, namespace maps) exactly as specified and nothing else, that read-only queries change nothing, and that SimpleGrammar "
+                      "validation raises InvalidDataError exactly when a required name is missing or a present typed element holds a non-instance (both directions). "
+                      "JSON-schema and pydantic grammars, pickling and the Simple/JSON/reference-validator agreement are NOT covered; see level_note.",
+        "level_note": "Trusted: pyvc and its dict/set models; types and data values are opaque values and isinstance(value, type) is an uninterpreted predicate; the "
+                      "collections.abc mixin methods the classes inherit (Mapping.__contains__/keys/items/get, MutableMapping.pop/update, MutableSet.__ior__/__iand__/remove/clear, "
+                      "copy.copy of a plain instance) are modelled in pyvc/plug_grammars.py from their CPython definitions over the verified primitives (add, discard, __setitem__, "
+                      "__delitem__, __getitem__, __iter__). BaseGrammar methods are verified for self: SimpleGrammar only (SimplerGrammar shares everything but _validate). "
+                      "The check currently reports genuine violations on the pinned tree (BaseGrammar.__copy__ shares the required names with the original; rename_element drops a "
+                      "None default; __delitem__/rename_element/restrict_to/update leave stale namespace entries) - see the report / known findings.",
         "design_ref": "DESIGN.md §4 C15",
         "modules": ["contracts.c15_grammars"],
-        "assumptions": [],
-        "not_covered": [],
+        "assumptions": [
+            "type objects and data values are opaque; py_isinstance(value, type) and py_is_type(x) are uninterpreted; class objects (dict, Mapping, ndarray) are distinct type objects; type(v) is a type v is an instance of",
+            "collections.abc mixins of RequiredNames/Defaults/grammars are summarised from their CPython source over the classes' verified primitives (pyvc/plug_grammars.py)",
+            "an Iterable[str] argument (names, excluded_names, required_names) is represented by its set of elements; a StrKeyMapping argument by a dict",
+            "update_namespaces: keys of the other map are added, other entries unchanged (values - a name or a list of names - are opaque); __create_data_converter only sets _data_converter",
+            "distinct grammar arguments do not alias (g.update(g) is not covered)",
+            "message construction (MultiLineString, f-strings, logging) is dropped",
+        ],
+        "not_covered": [
+            "JSONGrammar (genson/fastjsonschema): schema/validator cache protocol, JSON-schema acceptance vs a reference validator, to_simple_grammar - natively confirmed defects are reported, not proved",
+            "PydanticGrammar; pickling (__getstate__/__setstate__, Serializable); agreement Simple <-> JSON grammars",
+            "renaming onto another existing element: only WFG and the frame are specified (the overwritten element's requiredness/default survive)",
+            "the values of to_namespaced/from_namespaced (only their key sets are specified); names_without_namespace, __repr__/_repr_html_, data converter",
+            "__iter__ of the three classes and RequiredNames._from_iterable/__str__ are only exercised inlined at their call sites",
+        ],
+    },
+    "C20": {
+        "level_text": "Proof that Serializable.__getstate__ returns exactly {name: enc(value)} for the instance dictionary minus _ATTR_NOT_TO_SERIALIZE (any "
+                      "dictionary, any exclusion set; Synchronized replaced by its value, Path by an OS-specific pure path) without touching the object, that "
+                      "__setstate__ on a fresh instance restores plain attributes from the state and writes the saved values of shared attributes into the NEW "
+                      "shared cells created by _init_shared_memory_attrs_before (no cell of the original is written), proof of the before-hooks of ProblemFunction, "
+                      "ExecutionStatistics and ExecutionStatus against that hook specification, round-trip lemma over these contracts, and per-class lemma that "
+                      "the declared exclusion names designate the attributes they are meant to exclude.",
+        "level_note": "Instance dictionaries are modelled as a dict field; attribute values are opaque with recognisable kinds (Synchronized / Path / PurePath). "
+                      "The whole-class question (is every non-picklable attribute excluded and rebuilt) is not a function contract and is not covered.",
+        "design_ref": "DESIGN.md §4 C20",
+        "modules": ["contracts.c20_serialization"],
+        "assumptions": [
+            "attribute stores on instances of the classes under contract go to the instance dictionary (no slots/descriptors)",
+            "pickle calls __setstate__ on an instance created by cls.__new__ (empty dictionary)",
+            "hook specification (assumed for overrides that are not verified): _init_shared_memory_attrs_before creates new shared cells only; "
+            "_init_shared_memory_attrs_after only touches attributes excluded from serialization",
+            "round-trip lemma: same-platform path round trip Path(to_os_specific(p)) == p; class well-formedness (the Synchronized attributes are exactly "
+            "those re-created as Synchronized by the before-hook)",
+        ],
+        "not_covered": ["JSONGrammar / PydanticGrammar / HDF5Cache / DisciplineData __getstate__/__setstate__ overrides", "pickle itself, picklability of the "
+                        "remaining attribute values", "behavioural equivalence of restored disciplines (execute/linearize agree)"],
     },
 }
 
